@@ -227,6 +227,8 @@ pub enum Chars {
     Small,
     /// any unicode scalar
     Unicode,
+    /// 0x20..=0x7C (the ATASCII writer's printable domain)
+    Ascii7,
 }
 
 #[derive(Clone, Copy, Debug, PartialEq)]
@@ -252,6 +254,7 @@ pub fn pick_char(rng: &mut Rng, c: Chars) -> u32 {
             }
         }
         Chars::Full => rng.below(256) as u32,
+        Chars::Ascii7 => 0x20 + rng.below(0x5D) as u32,
         Chars::FullNoNul => 1 + rng.below(255) as u32,
         Chars::Small => *rng.pick(&[b'A' as u32, b'B' as u32, 0x20, 0xDB, 0xB0]),
         Chars::Unicode => loop {
